@@ -69,6 +69,16 @@ pub fn text(polys: &[Vec<[f64; 2]>]) -> String {
     format!("[{}]", ps.join(","))
 }
 
+/// inverse of `text` for finite inputs
+pub fn parse_text(t: &str) -> Option<Vec<Vec<[f64; 2]>>> {
+    let ctx: cavint::core::parsing::DefaultContext<f64> = Default::default();
+    let inner = t.trim();
+    let inner = inner.strip_prefix('[')?.strip_suffix(']')?;
+    if inner.is_empty() { return Some(vec![]); }
+    if inner.contains("NaN") || inner.contains("inf") || inner.contains("[]") { return None; }
+    cavint::core::parsing::compile_polygon_set(inner, &ctx).ok()
+}
+
 pub fn request(polys: &[Vec<[f64; 2]>]) -> String {
     let mut s = format!("sweep {}", polys.len());
     for p in polys { s.push_str(&format!(" {}", p.len())); for v in p { s.push(' '); s.push_str(&hx(v[0])); s.push(' '); s.push_str(&hx(v[1])); } }
@@ -330,6 +340,23 @@ pub fn run(o: &Opts) -> Report {
             rep.model_compared += 1;
             if imp != ans { rep.finding("model", &["C03", "C04", "C15", "C16"], "sweep-differs", format!("tri {}", txt), format!("impl: {} | model: {}", imp, ans)); }
         }
+        // the same model in exact arithmetic (XQ instance, the one the theorems are about):
+        // must agree with the implementation on every VALID lattice input; on invalid inputs
+        // binary64 rounding of interpolated ordinates may legitimately change which error is met
+        let qlines: Vec<String> = reqs.iter().map(|r| r.0.replacen("sweep ", "sweepq ", 1)).collect();
+        let qans = run_driver_par(&o.drv, &qlines, o.jobs);
+        let mut agree = 0u64; let mut differ_invalid = 0u64;
+        for ((req, imp, txt), ans) in reqs.iter().zip(qans.iter()) {
+            let _ = req;
+            if imp == ans { agree += 1; continue; }
+            // -0.0 vs 0.0 in payloads is not modelled by XQ
+            if imp.replace("8000000000000000", "0000000000000000") == *ans { agree += 1; continue; }
+            let valid = parse_text(txt).and_then(|p| to_int(&p)).map_or(false, |ip| ip.iter().all(|q| q.len() >= 3) && is_valid_set(&ip));
+            if valid { rep.finding("model", &["C03", "C04"], "sweepq-differs-on-valid", format!("tri {}", txt), format!("impl: {} | exact model: {}", imp, ans)); }
+            else { differ_invalid += 1; }
+        }
+        rep.count_n("exact-model:agree", agree);
+        rep.count_n("exact-model:differs-on-invalid-input", differ_invalid);
     }
     rep
 }
